@@ -14,6 +14,9 @@ Decides:
  F final not caught parse_option / fallback rows for ParseFailure (shared with C06) - the inner help is never
                     swallowed (found and fixed e30e3d1).
  L own level        run_subparser renders help from its own info / parser / path (shared with C10).
+ U usage fallback   the `fallback_to_usage` help of the ENCLOSING level replaces a failure only when the level was given no
+                    items at all (test taken before the inner parser ran): a subcommand's own failure is never turned
+                    into the parent's help (shared with C10/C11).
  R scope restore    adjacent commands restore the pre-adjacency scope (shared with C05; found and fixed 9061519).
 Does not decide: acceptance of whole subcommand lines."""
 import re
@@ -26,7 +29,7 @@ import consumers, scopes, c05, c06, c07, c10
 LEVEL = 'other'
 EXPLANATION = __doc__
 ASSUMPTIONS = []
-FLOORS = {'N.name-first': 6, 'M.matched': 7, 'U.unmatched': 3, 'D.depth': 8, 'F.final': 10, 'L.own-level': 2, 'R.scope-restore': 4}
+FLOORS = {'N.name-first': 6, 'M.matched': 7, 'U.unmatched': 3, 'D.depth': 8, 'F.final': 10, 'L.own-level': 2, 'R.scope-restore': 4, 'U.usage-fallback': 1}
 
 def run(ctx):
     cfgs = ['none', 'all'] if ctx.tier == 'quick' else ['none', 'all', 'ac', 'doc']
@@ -39,6 +42,7 @@ def run(ctx):
         keep_only(ctx, lambda: c10.final(ctx, cfg, fs), lambda o: True, 'F.final')
         keep_only(ctx, lambda: c10.returns(ctx, cfg, fs), lambda o: o.rule == 'P.payload', 'L.own-level')
         keep_only(ctx, lambda: c05.scope_restore(ctx, cfg, fs), lambda o: 'ParseCommand' in o.key, 'R.scope-restore')
+        keep_only(ctx, lambda: c10.usage_fallback(ctx, cfg, ctx.look(fs.one(r'^info::OptionParser::<T>::run_subparser$')), 'U.usage-fallback'), lambda o: True, 'U.usage-fallback')
 
 def keep_only(ctx, fn, pred, rule):
     before = len(ctx.obs)
